@@ -62,3 +62,11 @@ func (x *Index) Add(i int) error {
 	x.Added[i] = true
 	return nil
 }
+
+// ResetWith re-initialises the same index object for another reference (same events, other validator
+// weights) over a fresh database, as a consensus Reset does.
+func (x *Index) ResetWith(ref *graphref.Ref) {
+	x.Ref = ref
+	x.Added = make([]bool, len(ref.Evs))
+	x.Idx.Reset(ref.Validators(), memorydb.New(), func(id hash.Event) dag.Event { return x.evs[id] })
+}
